@@ -106,6 +106,9 @@ func (p propC04) Gen(r *Rng, tier string) *World {
 	if r.P(0.25) {
 		w.Extra["fresh_ctx"] = "1" // a new Ctx per call instead of one per request
 	}
+	if r.P(0.3) {
+		w.Extra["sibling"] = "1"
+	}
 	if w.Cfg.Undefined && r.P(0.4) {
 		w.Extra["real_fetcher"] = "1"
 	} else if p.id == "C04" && r.P(0.15) {
@@ -261,6 +264,9 @@ func (pr propC04) Run(w *World, st *Stats) *Violation {
 			if w.Extra["real_fetcher"] == "1" {
 				c.Extra["real_fetcher"] = "1"
 			}
+			if w.Extra["sibling"] == "1" {
+				c.Extra["sibling"] = "1"
+			}
 			return c
 		}
 
@@ -271,6 +277,33 @@ func (pr propC04) Run(w *World, st *Stats) *Violation {
 		reqFetcher := &SimFetcher{}
 		reqCtx := &eval.Ctx{VariableFetcher: reqFetcher}
 		reuse := w.Extra["fresh_ctx"] != "1"
+		// A request's Ctx is also shared by rules compiled under OTHER configs
+		// (a name-keyed fetcher makes that legitimate): a sibling compiled from
+		// the same source with the variable keys rotated is evaluated on the
+		// same Ctx right before every TryEval of the rule under test.
+		var sibling *Compiled
+		if w.Extra["sibling"] == "1" && reuse {
+			cfg2 := w.Cfg
+			cfg2.Vars = append([]VarSpec(nil), w.Cfg.Vars...)
+			var regIdx []int
+			for i, v := range cfg2.Vars {
+				if v.Reg {
+					regIdx = append(regIdx, i)
+				}
+			}
+			if len(regIdx) >= 2 {
+				first := cfg2.Vars[regIdx[0]].Key
+				for k := 0; k+1 < len(regIdx); k++ {
+					cfg2.Vars[regIdx[k]].Key = cfg2.Vars[regIdx[k+1]].Key
+				}
+				cfg2.Vars[regIdx[len(regIdx)-1]].Key = first
+				sc, serr, span := CompileSpec(&cfg2, w.Prog, mask, w.Cfg.ViaDirect, NewEnv(ops, &Plan{}))
+				if serr == nil && span == nil {
+					sibling = sc
+					st.Probe("sibling_rule_with_rotated_keys")
+				}
+			}
+		}
 		failAt := -1
 		tryAt := func(unavail []string, clock int64) (*Plan, Outcome) {
 			p := full.Clone()
@@ -301,6 +334,17 @@ func (pr propC04) Run(w *World, st *Stats) *Violation {
 				c.Host.CompileEnv = nil
 				st.Probe("real_map_fetcher_runs")
 			} else if reuse {
+				if sibling != nil {
+					senv := NewEnv(ops, &p)
+					reqFetcher.E = senv
+					so := sibling.RunCtx(reqCtx, senv, p.Kind)
+					st.Evals++
+					if so.Panic != nil && !so.Abort {
+						o = so
+						o.Panic = fmt.Sprintf("sibling rule (same source, rotated keys) on the shared Ctx: %v", so.Panic)
+						return &p, o
+					}
+				}
 				env := NewEnv(ops, &p)
 				env.Phase = "tryeval"
 				reqFetcher.E = env
